@@ -302,6 +302,11 @@ func c17Run(in Fields) Fields {
 	conn := client.Client(cfg)
 	if c.track {
 		conn.EnableStateTracking()
+	} else if (len(c.script)+len(c.nick))%2 == 0 {
+		// half of the untracked cases: tracking was switched on and off again before the
+		// session; the client must behave exactly like one that never tracked
+		conn.EnableStateTracking()
+		conn.DisableStateTracking()
 	}
 	// where user code would dereference it: a foreground CONNECTED handler looks at Config().Me
 	var connMu sync.Mutex
